@@ -1,1 +1,192 @@
+(* C03 — the reader dialvia/http.go DialContextR puts on the upstream connection
+   to parse the proxy's reply to CONNECT:  bufio.NewReaderSize(byteReader{conn}, 128)
+   handed to http.ReadResponse, and what closing the reply's body consumes.
+   Everything the reader takes from the connection beyond the reply head is lost
+   to the tunnel (the reader is dropped, the bare conn is handed over). *)
+From Coq Require Import List NArith Bool Lia PeanoNat.
+From FwdLib Require Import Bytes.
+Import ListNotations.
+Open Scope N_scope.
 
+(* split at the first LF: (line including LF, rest) *)
+Fixpoint split_lf (l : list N) : option (list N * list N) :=
+  match l with
+  | [] => None
+  | c :: r => if N.eqb c 10 then Some ([c], r)
+              else match split_lf r with Some (a, rest) => Some (c :: a, rest) | None => None end
+  end.
+
+Record rd := mkRd {
+  r_buf : list N;        (* read from the connection, not yet handed to the parser *)
+  r_rest : list N;       (* still in the connection *)
+  r_sched : list nat     (* how many bytes the connection has ready at each successive Read *)
+}.
+
+(* bytes one fill() obtains: the free space of the buffer (one byte through
+   byteReader), at most what the connection has ready (at least one: Read blocks) *)
+Definition fill_n (bytewise : bool) (size : nat) (buffered : nat) (sched : list nat) : nat :=
+  Nat.min (if bytewise then 1%nat else (size - buffered)%nat)
+          (match sched with [] => 1%nat | a :: _ => Nat.max 1 a end).
+Arguments fill_n : simpl never.
+
+Lemma fill_n_bytewise size buffered sched : fill_n true size buffered sched = 1%nat.
+Proof. unfold fill_n. destruct sched; [reflexivity|]. lia. Qed.
+
+Section Reader.
+Variable bytewise : bool.   (* the bufio reader sits on byteReader{conn} (Read(p) = conn.Read(p[:1])) *)
+Variable size : nat.        (* size of the bufio reader *)
+
+(* bufio.Reader.ReadLine as used by textproto: find LF in the buffer; a full
+   buffer without LF is handed out as a fragment; otherwise fill() does ONE Read
+   into the free space. *)
+Fixpoint readline (fuel : nat) (acc : list N) (r : rd) : option (list N * rd) :=
+  match fuel with
+  | O => None
+  | S f =>
+    match split_lf (r_buf r) with
+    | Some (line, after) => Some (acc ++ line, mkRd after (r_rest r) (r_sched r))
+    | None =>
+      if (size <=? length (r_buf r))%nat then readline f (acc ++ r_buf r) (mkRd [] (r_rest r) (r_sched r))
+      else match r_rest r with
+           | [] => None
+           | _ =>
+             let n := fill_n bytewise size (length (r_buf r)) (r_sched r) in
+             readline f acc (mkRd (r_buf r ++ firstn n (r_rest r)) (skipn n (r_rest r)) (tl (r_sched r)))
+           end
+    end
+  end.
+
+Definition is_blank (line : list N) : bool :=
+  match line with [10] | [13; 10] => true | _ => false end.
+
+(* http.ReadResponse: status line and header lines up to the blank line *)
+Fixpoint read_head (lines fuel : nat) (consumed : list N) (r : rd) : option (list N * rd) :=
+  match lines with
+  | O => None
+  | S k =>
+    match readline fuel [] r with
+    | None => None
+    | Some (line, r') =>
+      if is_blank line then Some (consumed ++ line, r') else read_head k fuel (consumed ++ line) r'
+    end
+  end.
+
+(* ---- nothing is dropped by the reader itself ---- *)
+Lemma split_lf_app l a rest : split_lf l = Some (a, rest) -> l = a ++ rest.
+Proof.
+  revert a rest; induction l as [|c l IH]; simpl; intros a rest H; [discriminate|].
+  destruct (N.eqb c 10); [inversion H; reflexivity|].
+  destruct (split_lf l) as [[a' r']|]; [|discriminate]. inversion H; subst. simpl. f_equal. apply IH. reflexivity.
+Qed.
+
+Lemma readline_stream fuel acc r line r' :
+  readline fuel acc r = Some (line, r') ->
+  line ++ r_buf r' ++ r_rest r' = acc ++ r_buf r ++ r_rest r.
+Proof.
+  revert acc r; induction fuel as [|f IH]; intros acc r; simpl; [discriminate|].
+  destruct (split_lf (r_buf r)) as [[l after]|] eqn:S.
+  - intro H; inversion H; subst; simpl. apply split_lf_app in S. rewrite S. repeat rewrite <- app_assoc. reflexivity.
+  - destruct (size <=? length (r_buf r))%nat.
+    + intro H. apply IH in H. simpl in H. rewrite H. repeat rewrite <- app_assoc. reflexivity.
+    + destruct (r_rest r) eqn:R; [discriminate|]. intro H. apply IH in H. cbn [r_buf r_rest] in H. rewrite H.
+      rewrite <- app_assoc, firstn_skipn. reflexivity.
+Qed.
+
+Lemma read_head_stream lines fuel consumed r head r' :
+  read_head lines fuel consumed r = Some (head, r') ->
+  head ++ r_buf r' ++ r_rest r' = consumed ++ r_buf r ++ r_rest r.
+Proof.
+  revert consumed r; induction lines as [|k IH]; intros consumed r; simpl; [discriminate|].
+  destruct (readline fuel [] r) as [[line r1]|] eqn:L; [|discriminate].
+  apply readline_stream in L. simpl in L.
+  destruct (is_blank line).
+  - intro H; inversion H; subst. rewrite <- app_assoc, L. reflexivity.
+  - intro H. apply IH in H. rewrite H, <- app_assoc, L. reflexivity.
+Qed.
+
+(* ---- byte-wise: the reader never holds anything beyond the line it returns ---- *)
+Definition tidy (buf : list N) : Prop :=
+  match split_lf buf with None => True | Some (_, after) => after = [] end.
+
+Lemma split_lf_snoc l c : split_lf l = None ->
+  split_lf (l ++ [c]) = if N.eqb c 10 then Some (l ++ [c], []) else None.
+Proof.
+  induction l as [|x l IH]; simpl.
+  - intros _. destruct (N.eqb c 10); reflexivity.
+  - destruct (N.eqb x 10); [discriminate|]. destruct (split_lf l) as [[a r]|] eqn:S; [discriminate|].
+    intros _. rewrite (IH eq_refl). destruct (N.eqb c 10); reflexivity.
+Qed.
+
+Lemma readline_bytewise fuel acc r line r' :
+  bytewise = true -> tidy (r_buf r) -> readline fuel acc r = Some (line, r') -> r_buf r' = [].
+Proof.
+  intro BW. revert acc r; induction fuel as [|f IH]; intros acc r T; simpl; [discriminate|].
+  unfold tidy in T. destruct (split_lf (r_buf r)) as [[l after]|] eqn:S.
+  - intro H; inversion H; subst; simpl. auto.
+  - destruct (size <=? length (r_buf r))%nat.
+    + apply IH. unfold tidy. simpl. exact I.
+    + destruct (r_rest r) as [|c rest] eqn:R; [discriminate|].
+      rewrite BW, fill_n_bytewise. simpl.
+      apply IH. unfold tidy. simpl. rewrite (split_lf_snoc _ c S). destruct (N.eqb c 10); [reflexivity | exact I].
+Qed.
+
+Lemma read_head_bytewise lines fuel consumed r head r' :
+  bytewise = true -> r_buf r = [] -> read_head lines fuel consumed r = Some (head, r') -> r_buf r' = [].
+Proof.
+  intro BW. revert consumed r; induction lines as [|k IH]; intros consumed r B; simpl; [discriminate|].
+  destruct (readline fuel [] r) as [[line r1]|] eqn:L; [|discriminate].
+  assert (B1 : r_buf r1 = []).
+  { eapply readline_bytewise; [assumption | | eassumption]. unfold tidy. rewrite B. exact I. }
+  destruct (is_blank line).
+  - intro H; inversion H; subst. assumption.
+  - apply IH. assumption.
+Qed.
+
+End Reader.
+
+(* what the proxy loses of the tunnel: bytes the head reader still holds when it is dropped *)
+Definition head_overread (bytewise : bool) (size : nat) (stream : list N) (sched : list nat) : option (list N) :=
+  match read_head bytewise size (length stream + 1) (2 * length stream + 2) [] (mkRd [] stream sched) with
+  | Some (_, r') => Some (r_buf r')
+  | None => None
+  end.
+
+Theorem bytewise_no_overread size stream sched o :
+  head_overread true size stream sched = Some o -> o = [].
+Proof.
+  unfold head_overread.
+  destruct (read_head true size (length stream + 1) (2 * length stream + 2) [] (mkRd [] stream sched)) as [[h r']|] eqn:E;
+    [|discriminate].
+  intro H; inversion H; subst. eapply read_head_bytewise; [reflexivity | | exact E]. reflexivity.
+Qed.
+
+(* ... and the tunnel continues exactly behind the head *)
+Theorem bytewise_tunnel_intact size stream sched head r' :
+  read_head true size (length stream + 1) (2 * length stream + 2) [] (mkRd [] stream sched) = Some (head, r') ->
+  stream = head ++ r_rest r'.
+Proof.
+  intro E. assert (B : r_buf r' = []) by (eapply read_head_bytewise; [reflexivity | | exact E]; reflexivity).
+  apply read_head_stream in E. simpl in E. rewrite B in E. simpl in E. symmetry. exact E.
+Qed.
+
+(* without byteReader the same reader swallows whatever arrives in the same segment as the reply head *)
+Definition overread_witness : option (list N) :=
+  head_overread false 128 (b "HTTP/1.1 200 OK" ++ [13;10;13;10] ++ b "banner") [64%nat].
+
+(* ---- the body of the reply ---- *)
+(* framing declared by the reply head, as net/http's readTransfer sees it *)
+Record framing := mkFr { fr_chunked : bool; fr_clen : N; fr_closing : bool }.
+
+(* bytes taken from the connection when the caller closes the body of a 2xx reply
+   to CONNECT (net/http body.Close drains a length-delimited or chunked body of a
+   keep-alive response): avail = bytes the far end sends behind the head.
+   ignored: DialContextR replaces the body of a 2xx by http.NoBody (RFC 9110 9.3.6:
+   a client MUST ignore Content-Length / Transfer-Encoding in a 2xx reply to CONNECT). *)
+Definition close_consumes (ignored closed : bool) (fr : framing) (avail : N) : N :=
+  if ignored || negb closed then 0
+  else if fr_chunked fr then avail
+  else if fr_closing fr then 0
+  else N.min (fr_clen fr) avail.
+
+Lemma ignored_consumes_nothing closed fr avail : close_consumes true closed fr avail = 0.
+Proof. reflexivity. Qed.
